@@ -99,7 +99,7 @@ Proof. intros [cs _]. eexists. reflexivity. Qed.
 
 Lemma not_bracket_body p z1 c need state : need = false -> c <> 123 -> c <> 125 -> c <> 91 -> c <> 93 ->
   next_body p z1 c need state =
-  if state =? S_ObjectKey then next_key p (skip z1) c need else next_value p (skip z1) c state.
+  if state =? S_ObjectKey then next_key p (skip z1) c need else next_value p (skip z1) c need state.
 Proof.
   intros -> H1 H2 H3 H4. unfold next_body. cbn [andb].
   replace (c =? 123) with false by lia. replace (c =? 125) with false by lia.
@@ -169,7 +169,7 @@ Proof.
   destruct (scalar_hd x g r Hx) as (_ & _ & Hb1 & Hb2 & Hb3 & Hb4 & _).
   rewrite not_bracket_body by (try reflexivity; assumption).
   replace (state =? S_ObjectKey) with false by lia.
-  unfold next_value.
+  unfold next_value, emit_value.
   assert (Hst' : (if state =? S_ObjectValue then set_top (pst p) S_ObjectKey else Some (pst p))
                  = Some (valfix (pst p))).
   { destruct (pst p) as [|s0 t0] eqn:Ep; [discriminate|]. cbn in Htop. inversion Htop; subst s0.
@@ -212,29 +212,23 @@ Proof.
     rewrite He. eexists _, _. split; [reflexivity|]. rewrite <- app_assoc in Hz'. exact Hz'.
 Qed.
 
-(* the end of the input after the top-level value *)
+(* the end of the input in a value position: ErrorGrammar, nothing recorded, nothing changed *)
 Lemma body_eof p z1 a tok1 state nd :
-  cur3 z1 a tok1 [] -> top (pst p) = Some state -> state <> S_ObjectKey -> perr p = None -> prd p = 0 ->
-  exists p', next_body p z1 0 nd state = Some ((G_Error, None), p') /\ err_kind p' = 1.
+  cur3 z1 a tok1 [] -> state <> S_ObjectKey -> prd p = 0 ->
+  exists z', next_body p z1 0 nd state = Some ((G_Error, None), mkP z' (pst p) (perr p) nd (prd p)) /\
+             cur3 z' (a ++ tok1) [] [].
 Proof.
-  intros H1 Htop Hstate Hperr Hprd. unfold next_body.
+  intros H1 Hstate Hprd. unfold next_body.
   replace (nd && negb (0 =? 125) && negb (0 =? 93) && negb (0 =? 0)) with false by (destruct nd; reflexivity).
   cbn [Z.eqb]. replace (state =? S_ObjectKey) with false by lia.
-  unfold next_value.
-  assert (Hst' : (if state =? S_ObjectValue then set_top (pst p) S_ObjectKey else Some (pst p))
-                 = Some (valfix (pst p))).
-  { destruct (pst p) as [|s0 t0] eqn:Ep; [discriminate|]. cbn in Htop. inversion Htop; subst s0.
-    cbn [valfix set_top]. destruct (state =? S_ObjectValue); reflexivity. }
-  rewrite Hst'. change (0 =? 34) with false. cbn [option_bind fst snd].
+  unfold next_value. change (0 =? 34) with false. cbn [option_bind fst snd].
   pose proof (cur3_skip _ _ _ _ H1) as H2.
   pose proof (consume_number_spec _ _ _ _ H2) as Hn. cbn [num_split sign_split int_split] in Hn.
   destruct Hn as (z4 & Hcn & H4). rewrite Hcn. cbn [option_bind fst snd].
   pose proof (consume_literal_spec _ _ _ _ H4) as Hl. cbn in Hl. rewrite Hl. cbn [option_bind fst snd].
   rewrite (cur3_pk0 _ _ _ _ H4). cbn [option_bind hd0 Z.eqb andb].
   unfold r_err. rewrite Hprd. cbn [Z.eqb negb orb]. rewrite (cur3_at_end _ _ _ _ H4). cbn [len length Z.of_nat Z.eqb negb].
-  eexists. split; [reflexivity|].
-  unfold err_kind. cbn [perr prd pz]. rewrite Hperr. cbn [Z.eqb negb].
-  rewrite (cur3_at_end _ _ _ _ H4). reflexivity.
+  exists z4. split; [reflexivity|exact H4].
 Qed.
 
 (* ---------------------------------------------------------------------------------------------- *)
@@ -724,8 +718,11 @@ Proof.
   destruct (next_front p1 a1 [] w2 [] (pneed p1) S_Value Hc1' (lead_plain p1 w2 Hw2) eq_refl ltac:(cbn; lia) Htop1)
     as (z1 & Hz1 & Hnext).
   cbn [hd0] in Hnext.
-  destruct (body_eof p1 z1 a1 ([] ++ w2) S_Value (pneed p1) Hz1 Htop1 ltac:(discriminate) He1 Hr1)
-    as (pf & Hbody & Hkind).
+  destruct (body_eof p1 z1 a1 ([] ++ w2) S_Value (pneed p1) Hz1 ltac:(discriminate) Hr1) as (zf & Hbody & Hzf).
+  set (pf := mkP zf (pst p1) (perr p1) (pneed p1) (prd p1)) in *.
+  assert (Hkind : err_kind pf = 1).
+  { unfold err_kind, pf. cbn [perr prd pz]. rewrite He1, Hr1. cbn [Z.eqb negb].
+    rewrite (cur3_at_end _ _ _ _ Hzf). reflexivity. }
   rewrite Hbody in Hnext.
   (* fuel *)
   destruct (runs_progress d _ _ _ (json_inv_init d) Hrun) as [Hinv1 Hle].
